@@ -274,6 +274,42 @@ def agg_bounds_oracle(kind, par, xs, val):
     return None
 
 
+PARAM_ATTR = {'PNorm': 'p', 'KSFunction': 'rho', 'SoftMinMax': 'alpha'}
+CONTINUATION = {
+    'PNorm': [[2.0, 4.0, 8.0, 16.0], [4.0, -4.0, 6.0, -2.0], [8.0, 2.0, 1.5, 1.5], [-2.0, -6.0, -12.0]],
+    'KSFunction': [[1.0, 3.0, 9.0, 20.0], [4.0, -4.0, 6.0, -2.0], [10.0, 2.0, 0.5, 0.5], [-1.0, -5.0, -15.0]],
+    'SoftMinMax': [[1.0, 3.0, 9.0, 20.0], [4.0, -4.0, 6.0, -2.0], [10.0, 2.0, 0.5, 0.5], [-1.0, -5.0, -15.0]],
+}
+
+
+def agg_ref(kind, par, xs):
+    """plain-numpy statement of the three aggregation functions and their gradients for a GIVEN parameter
+    (positive data); independent of the module's attributes"""
+    xs = np.asarray(xs, dtype=float)
+    if kind == 'PNorm':
+        S = float(np.sum(xs ** par))
+        return S ** (1.0 / par), S ** (1.0 / par - 1.0) * xs ** (par - 1.0)
+    z = par * xs
+    w = np.exp(z - z.max())
+    if kind == 'KSFunction':
+        return float((z.max() + math.log(float(np.sum(w)))) / par), w / np.sum(w)
+    w = w / np.sum(w)
+    val = float(np.sum(xs * w))
+    return val, w * (1.0 + par * (xs - val))
+
+
+def agg_ref_fd_ok(kind, par, xs, grad):
+    """validate the reference gradient against central differences of the reference value"""
+    xs = np.asarray(xs, dtype=float)
+    h = 1e-6
+    for i in range(xs.size):
+        e = np.zeros_like(xs)
+        e[i] = h
+        fd = (agg_ref(kind, par, xs + e)[0] - agg_ref(kind, par, xs - e)[0]) / (2 * h)
+        assert abs(fd - grad[i]) <= 2e-5 * max(1.0, abs(grad[i])), (kind, par, xs.tolist(), i, fd, grad[i])
+    return 1
+
+
 # ----------------------------------------------------------------------------- main
 def run(ctx):
     import pymoto as pym
@@ -283,7 +319,11 @@ def run(ctx):
                 'counts alone for n = 2..64 (thorough 2..400) x every fraction; a case is non-trivial when the result is a mask; distinct by '
                 '(vector, configuration).  Aggregations: PNorm/KS/SoftMinMax x parameters of both signs x n in 1..12 positive data, '
                 'each an `interval` goal |model_R - impl| <= 1e-9*scale.  AggScaling: sequences of 1..6 calls; Aggregation pipeline: '
-                'histories of 1..6 response() calls with scaling/active set, exact Q on the float values')
+                'histories of 1..6 response() calls with scaling/active set, exact Q on the float values; the aggregation parameter (p, rho, alpha) is '
+                're-assigned on the module between calls: 72 deliberate continuation histories on every run (3 classes x increasing / sign-flipping / '
+                'decreasing / negative schedules x no / undamped / damped scaling x with / without active set, first two calls on the same data) and '
+                '~60% of the random histories; every call gives an interval goal for the CURRENT parameter; implementation-side oracle per call: value '
+                'and bounds for the current parameter, scale-factor recurrence, and the sensitivity against s_k*dfdy*grad of a plain-numpy reference')
     ctx.assumptions += [
         'aggregation bounds are theorems over the reals for positive data (KS/soft-max: any data); the float results are tied to the '
         'real formulas by interval goals at 1e-9 relative tolerance',
@@ -515,30 +555,32 @@ def run(ctx):
                     if msg:
                         oracle_hits.append((dict(kind=kind, parameter=par, x=xs.tolist(), impl=val), msg))
 
-    # ---- Aggregation pipeline: histories of response() calls with scaling and active set
-    nhist = 40 if ctx.quick() else 300
-    for t in range(nhist):
-        kind = ['PNorm', 'KSFunction', 'SoftMinMax'][int(rng.integers(3))]
-        par = float(rng.choice([2.0, -2.0, 4.0, -4.0, 1.5, -1.5]))
-        which = ('max' if par > 0 else 'min') if rng.random() < 0.85 else ('min' if par > 0 else 'max')
-        d = float(rng.choice([0.0, 0.0, 0.25, 0.5, 0.9]))
-        use_scaling = rng.random() < 0.8
-        use_as = rng.random() < 0.7
-        ascfg = None
-        if use_as:
-            ascfg = (float(rng.choice([0.0, 0.1, 0.25])), float(rng.choice([1.0, 0.9, 0.75])),
-                     float(rng.choice([0.0, 0.1, 0.2, 0.3])), float(rng.choice([1.0, 0.9, 0.8, 0.7])))
+    # ---- Aggregation pipeline: histories of response() calls with scaling and active set; the aggregation parameter
+    #      (p / rho / alpha, also its sign) may be RE-ASSIGNED on the module between the calls (continuation)
+    fd_checked = [0]
+
+    def run_history(label, kind, pars, which, d, use_scaling, ascfg, xlist):
+        """one module, len(xlist) response() calls; pars[k] is assigned to the module before call k"""
+        attr = PARAM_ATTR[kind]
+        use_as = ascfg is not None
         mk_as = (lambda: pym.AggActiveSet(*ascfg)) if use_as else (lambda: None)
         sig = pym.Signal('x')
         sig2 = pym.Signal('x2')
-        mod = make_module(pym, kind, sig, par, scaling=pym.AggScaling(which, damping=d) if use_scaling else None, active_set=mk_as())
-        twin = make_module(pym, kind, sig2, par, scaling=None, active_set=mk_as())
+        mod = make_module(pym, kind, sig, pars[0], scaling=pym.AggScaling(which, damping=d) if use_scaling else None, active_set=mk_as())
+        twin = make_module(pym, kind, sig2, pars[0], scaling=None, active_set=mk_as())
+        changed = len(set(pars)) > 1
+        icls = 'parameter re-assigned between response() calls' if changed else 'aggregation'
         steps, outs, ok = [], [], True
-        for _ in range(int(rng.integers(1, 7))):
-            n = int(rng.integers(2, 9))
-            xk = np.round(rng.uniform(0.2, 3, n), 3)
-            if rng.random() < 0.15:
-                xk[:] = xk[0]
+        sf_ref = None
+
+        def info_now(**kw):
+            return dict(kind=kind, constructor={attr: pars[0], 'scaling': (which, d) if use_scaling else None, 'active_set': ascfg},
+                        calls=[{attr: pars[j], 'x': st['x']} for j, st in enumerate(steps)], impl=list(outs), icls=icls, **kw)
+        for k, xk in enumerate(xlist):
+            par = pars[k]
+            if k > 0:
+                setattr(mod, attr, par)          # continuation: m.p = ..., m.rho = ..., m.alpha = ...
+                setattr(twin, attr, par)
             sig.state = xk.copy()
             sig2.state = xk.copy()
             try:
@@ -548,8 +590,9 @@ def run(ctx):
                 ok = False        # empty selection: outside the property
                 break
             except Exception as e:
-                oracle_hits.append((dict(site='Aggregation._response', pred='returns a value on positive data', kind=kind, parameter=par,
-                                         x=xk.tolist(), impl=type(e).__name__), 'response raised ' + type(e).__name__))
+                steps.append(dict(x=xk.tolist()))
+                oracle_hits.append((info_now(site='Aggregation._response', pred='returns a value on positive data', error=type(e).__name__),
+                                    'response raised ' + type(e).__name__))
                 ok = False
                 break
             sel = mod.select
@@ -560,40 +603,129 @@ def run(ctx):
                 break
             xagg = float(twin.sig_out[0].state)
             out = float(mod.sig_out[0].state)
-            steps.append(dict(x=xk.tolist(), perm=np.argsort(xk).tolist(), sel=selc, xagg=xagg, xsel=xs_sel.tolist()))
+            steps.append(dict(x=xk.tolist(), perm=np.argsort(xk).tolist(), sel=selc, xagg=xagg, xsel=xs_sel.tolist(), par=par))
             outs.append(out)
             goals.append(agg_goal(kind, par, xs_sel, xagg))
-            glabels.append(dict(kind=kind, parameter=par, x=xs_sel.tolist(), impl=xagg, pipeline=t))
+            glabels.append(dict(kind=kind, parameter=par, x=xs_sel.tolist(), impl=xagg, pipeline=label,
+                                parameters_so_far=list(pars[:k + 1])))
+            # -- implementation-side oracle, everything for the CURRENT parameter
             ctx.search_evaluations += 1
-            if use_scaling and d == 0.0:
-                tr = float(xs_sel.max() if which == 'max' else xs_sel.min())
-                if abs(out - tr) > 1e-12 * max(1, abs(tr)):
-                    oracle_hits.append((dict(site='Aggregation._response', pred='undamped scaling returns the true extreme', kind=kind, parameter=par, which=which, damping=d, active_set=ascfg, history=[s['x'] for s in steps], impl=outs),
-                                        'undamped scaling: output != true extreme of the selected entries'))
+            rval, rgrad = agg_ref(kind, par, xs_sel)
+            fd_checked[0] += agg_ref_fd_ok(kind, par, xs_sel, rgrad)
+            tr = float(xs_sel.max() if which == 'max' else xs_sel.min())
+            msg = agg_bounds_oracle(kind, par, xs_sel, xagg)
+            if msg:
+                oracle_hits.append((info_now(site=kind + '.aggregation_function', pred='aggregation bounds', step=k), msg + ' (current parameter, selected entries)'))
+                break
+            if abs(xagg - rval) > 1e-10 * max(1, abs(rval)):
+                oracle_hits.append((info_now(site=kind + '.aggregation_function', pred='aggregation value is that of the current parameter', step=k),
+                                    f'call {k}: aggregation value {xagg}, formula for {attr}={par} gives {rval}'))
+                break
+            if use_scaling:
+                sc = tr / rval
+                sf_ref = sc if sf_ref is None else d * sf_ref + (1 - d) * sc
+                exp_out = sf_ref * rval
+            else:
+                sf_ref, exp_out = 1.0, rval
+            if use_scaling and d == 0.0 and abs(out - tr) > 1e-12 * max(1, abs(tr)):
+                oracle_hits.append((info_now(site='Aggregation._response', pred='undamped scaling returns the true extreme', step=k),
+                                    'undamped scaling: output != true extreme of the selected entries'))
+                break
             if not use_scaling and abs(out - xagg) > 1e-12 * max(1, abs(xagg)):
-                oracle_hits.append((dict(site='Aggregation._response', pred='unscaled output is the aggregation value', kind=kind, parameter=par, active_set=ascfg, history=[s['x'] for s in steps], impl=outs),
+                oracle_hits.append((info_now(site='Aggregation._response', pred='unscaled output is the aggregation value', step=k),
                                     'without scaling the output is the aggregation value'))
-        if not ok or not steps:
+                break
+            if abs(out - exp_out) > 1e-10 * max(1, abs(exp_out)):
+                oracle_hits.append((info_now(site='Aggregation._response', pred='scale factor follows the damped recurrence', step=k),
+                                    f'call {k}: output {out}, s_k * approx_k = {exp_out} (s_k = d*s_(k-1) + (1-d)*true/approx)'))
+                break
+            # derivative of the response for the current parameter (scale factor and active set held fixed, as the
+            # module defines its sensitivity): dy/dx[select] = s_k * d agg(par_k)/dx, zero elsewhere
+            dfdy = float(np.round(rng.uniform(0.5, 2.0), 2)) * (-1 if rng.random() < 0.3 else 1)
+            try:
+                mod.sig_out[0].sensitivity = dfdy
+                mod.sensitivity()
+                got = np.array(sig.sensitivity, dtype=float)
+                mod.reset()
+            except Exception as e:
+                oracle_hits.append((info_now(site='Aggregation._sensitivity', pred='returns a sensitivity', step=k, error=type(e).__name__),
+                                    'sensitivity raised ' + type(e).__name__))
+                break
+            exp_dx = np.zeros_like(xk)
+            exp_dx[sel] = sf_ref * dfdy * rgrad
+            if got.shape != exp_dx.shape or np.max(np.abs(got - exp_dx)) > 1e-9 * max(1.0, np.max(np.abs(exp_dx))):
+                oracle_hits.append((info_now(site='Aggregation._sensitivity', pred='sensitivity is the derivative of the response for the current parameter',
+                                             step=k, dfdy=dfdy, expected_dx=exp_dx.tolist(), impl_dx=got.tolist()),
+                                    f'call {k}: sensitivity differs from s_k * dfdy * d agg({attr}={par})/dx on the selected entries'))
+                break
+        if not ok or not steps or len(steps) != len(outs):
             ctx.count('pipeline:skipped-empty-selection')
-            continue
+            return
         ctx.count(f'pipeline:{kind}:scaling={use_scaling}:active_set={use_as}')
         ctx.count(f'pipeline:calls={len(steps)}')
+        ctx.count('pipeline:parameter-' + ('changed' if changed else 'constant'))
+        if changed and any(a * b < 0 for a, b in zip(pars, pars[1:len(steps)])):
+            ctx.count('pipeline:parameter-sign-flip')
         scale = max(1.0, max(abs(o) for o in outs))
         cfg = f'(mkCfg {fhex(ascfg[0])} {fhex(ascfg[1])} {fhex(ascfg[2])} {fhex(ascfg[3])})' if use_as else None
         parts, hist = [], []
-        for s in steps:
+        for st in steps:
             if use_as:
-                selx = f'(active_set_checked FloatOps {cfg} {natl(s["perm"])} {fl(s["x"])})'
-                parts.append(f'result_eqb {selx} (res_of {len(s["x"])} {zlit(s["sel"])})')
+                selx = f'(active_set_checked FloatOps {cfg} {natl(st["perm"])} {fl(st["x"])})'
+                parts.append(f'result_eqb {selx} (res_of {len(st["x"])} {zlit(st["sel"])})')
             else:
                 selx = 'AS_All'
-                parts.append(vlib.blit(s['sel'] == -1))
-            hist.append(f'(map f2q (apply_select {selx} {fl(s["x"])}), {qlit(Fraction(s["xagg"]))}%Q)')
+                parts.append(vlib.blit(st['sel'] == -1))
+            hist.append(f'(map f2q (apply_select {selx} {fl(st["x"])}), {qlit(Fraction(st["xagg"]))}%Q)')
         damp = f'(Some {qlit(Fraction(d))}%Q)' if use_scaling else 'None'
         expr = ' && '.join(parts) + f' && Ql_close (tol * {qlit(Fraction(scale))})%Q (response_run_obs {vlib.blit(which == "max")} {damp} None [' + \
             '; '.join(hist) + f']) {ql([Fraction(o) for o in outs])}%Q'
-        add(('pipeline', t), expr, True, dict(kind=kind, parameter=par, which=which, damping=d if use_scaling else None,
-                                              active_set=ascfg, steps=steps, impl=outs))
+        add(('pipeline', label), expr, True, dict(kind=kind, parameters=list(pars[:len(steps)]), which=which, damping=d if use_scaling else None,
+                                                  active_set=ascfg, steps=steps, impl=outs))
+
+    def draw_x(n, equal=False):
+        xk = np.round(rng.uniform(0.2, 3, n), 3)
+        if equal:
+            xk[:] = xk[0]
+        return xk
+
+    # deliberate continuation histories (every run): all three classes x {no scaling, undamped, damped} x {no active
+    # set, active set} x {increasing, sign-flipping, decreasing-then-constant, negative increasing} parameter schedules;
+    # the first two calls see the SAME data, so only the parameter differs between them
+    for kind in ('PNorm', 'KSFunction', 'SoftMinMax'):
+        for si, sched in enumerate(CONTINUATION[kind]):
+            for sc_i, (use_scaling, d) in enumerate(((False, 0.0), (True, 0.0), (True, 0.5))):
+                for as_i, ascfg in enumerate((None, (0.1, 0.95, 0.1, 0.9))):
+                    which = 'max' if sched[0] > 0 else 'min'
+                    n = (3, 5, 8, 12)[(si + sc_i + as_i) % 4]
+                    x0 = draw_x(n)
+                    xlist = [x0, x0.copy()] + [draw_x(int(rng.integers(3, 9))) for _ in sched[2:]]
+                    run_history(f'continuation:{kind}:{si}:{sc_i}:{as_i}', kind, list(sched), which, d, use_scaling, ascfg, xlist)
+    nhist = 40 if ctx.quick() else 300
+    for t in range(nhist):
+        kind = ['PNorm', 'KSFunction', 'SoftMinMax'][int(rng.integers(3))]
+        pool = [2.0, -2.0, 4.0, -4.0, 1.5, -1.5, 7.0, -7.0]
+        par = float(rng.choice(pool[:6]))
+        which = ('max' if par > 0 else 'min') if rng.random() < 0.85 else ('min' if par > 0 else 'max')
+        d = float(rng.choice([0.0, 0.0, 0.25, 0.5, 0.9]))
+        use_scaling = rng.random() < 0.8
+        ascfg = None
+        if rng.random() < 0.7:
+            ascfg = (float(rng.choice([0.0, 0.1, 0.25])), float(rng.choice([1.0, 0.9, 0.75])),
+                     float(rng.choice([0.0, 0.1, 0.2, 0.3])), float(rng.choice([1.0, 0.9, 0.8, 0.7])))
+        ncalls = int(rng.integers(1, 7))
+        mode = rng.random()          # constant parameter | same-sign changes | arbitrary changes
+        pars = [par]
+        for _ in range(ncalls - 1):
+            if mode < 0.4 or rng.random() < 0.3:
+                pars.append(pars[-1])
+            elif mode < 0.7:
+                pars.append(float(abs(rng.choice(pool)) * (1 if par > 0 else -1)))
+            else:
+                pars.append(float(rng.choice(pool)))
+        xlist = [draw_x(int(rng.integers(2, 9)), equal=rng.random() < 0.15) for _ in range(ncalls)]
+        run_history(t, kind, pars, which, d, use_scaling, ascfg, xlist)
+    ctx.oracle_validation['plain-numpy aggregation gradient == central finite difference of the plain-numpy value (2e-5)'] = fd_checked[0]
 
     ctx.exhaustive = True
     ctx.extra['exhaustive_space'] = (f'n = 1..{nmax} x {len(amt_pairs)} (lower_amt, upper_amt) pairs x {len(vecs) // nmax} vector families; '
@@ -631,7 +763,7 @@ def run(ctx):
             ctx.violation('impl-violates', 'AggActiveSet.__call__', 'counts are fractions rounded down', 'counts', info, expected=msg)
         else:
             site, pred = info.get('site', str(info.get('kind'))), info.get('pred', 'aggregation bounds')
-            ctx.violation('impl-violates', site, pred, 'aggregation', info, expected=msg, got=info.get('impl'))
+            ctx.violation('impl-violates', site, pred, info.get('icls', 'aggregation'), info, expected=msg, got=info.get('impl'))
 
     if ctx.replay:
         ctx.extra['replay'] = 'the replayed case is part of the corpus / generated stream; see violations'
